@@ -9,15 +9,17 @@ import (
 
 	appsv1 "k8s.io/api/apps/v1"
 	corev1 "k8s.io/api/core/v1"
+	storagev1 "k8s.io/api/storage/v1"
 	"k8s.io/apimachinery/pkg/api/resource"
 	metav1 "k8s.io/apimachinery/pkg/apis/meta/v1"
 	"k8s.io/apimachinery/pkg/runtime/serializer"
 	"k8s.io/apimachinery/pkg/types"
-	clienttesting "k8s.io/client-go/testing"
 	"k8s.io/client-go/kubernetes/scheme"
+	clienttesting "k8s.io/client-go/testing"
 	clock "k8s.io/utils/clock/testing"
 	"sigs.k8s.io/controller-runtime/pkg/client"
 	"sigs.k8s.io/controller-runtime/pkg/client/fake"
+	"sigs.k8s.io/controller-runtime/pkg/client/interceptor"
 
 	_ "sigs.k8s.io/karpenter/pkg/apis"
 	v1 "sigs.k8s.io/karpenter/pkg/apis/v1"
@@ -56,6 +58,14 @@ func NewClient(objs ...client.Object) client.Client {
 	// a plain tracker: the default field-managed tracker rebuilds a REST mapper on every Create (~16x slower)
 	tracker := clienttesting.NewObjectTracker(scheme.Scheme, serializer.NewCodecFactory(scheme.Scheme).UniversalDecoder())
 	return fake.NewClientBuilder().WithScheme(scheme.Scheme).WithObjectTracker(tracker).
+		// PersistentVolumes are cluster scoped: an API server (and the real client) ignores the namespace karpenter puts into
+		// the key of VolumeTopology's PersistentVolume lookup, the fake object tracker does not
+		WithInterceptorFuncs(interceptor.Funcs{Get: func(ctx context.Context, c client.WithWatch, key client.ObjectKey, obj client.Object, opts ...client.GetOption) error {
+			if _, ok := obj.(*corev1.PersistentVolume); ok {
+				key.Namespace = ""
+			}
+			return c.Get(ctx, key, obj, opts...)
+		}}).
 		WithStatusSubresource(&v1.NodeClaim{}, &v1.NodePool{}).
 		WithIndex(&corev1.Pod{}, "spec.nodeName", func(o client.Object) []string { return []string{o.(*corev1.Pod).Spec.NodeName} }).
 		WithIndex(&corev1.Node{}, "spec.providerID", func(o client.Object) []string { return []string{o.(*corev1.Node).Spec.ProviderID} }).
@@ -153,6 +163,14 @@ func toNSR(es []KExpr) []corev1.NodeSelectorRequirement {
 	return out
 }
 
+func toLSR(es []KExpr) []metav1.LabelSelectorRequirement {
+	var out []metav1.LabelSelectorRequirement
+	for _, e := range es {
+		out = append(out, metav1.LabelSelectorRequirement{Key: e.Key, Operator: metav1.LabelSelectorOperator(e.Op), Values: append([]string(nil), e.Values...)})
+	}
+	return out
+}
+
 func (w *World) nextUID(prefix string) types.UID {
 	w.uidN++
 	return types.UID(fmt.Sprintf("%s-%06d", prefix, w.uidN))
@@ -162,7 +180,7 @@ func (w *World) nextUID(prefix string) types.UID {
 func (w *World) BuildPod(p Pod, nodeName string, seq int) *corev1.Pod {
 	pod := &corev1.Pod{
 		ObjectMeta: metav1.ObjectMeta{
-			Name: p.Name, Namespace: "default", Labels: p.Labels, UID: w.nextUID("pod"),
+			Name: p.Name, Namespace: p.NS(), Labels: p.Labels, UID: w.nextUID("pod"),
 			CreationTimestamp: metav1.NewTime(T0.Add(-time.Hour).Add(time.Duration(seq) * time.Second)),
 		},
 		Spec: corev1.PodSpec{
@@ -181,6 +199,10 @@ func (w *World) BuildPod(p Pod, nodeName string, seq int) *corev1.Pod {
 			proto = corev1.ProtocolTCP
 		}
 		pod.Spec.Containers[0].Ports = append(pod.Spec.Containers[0].Ports, corev1.ContainerPort{ContainerPort: hp.Port, HostPort: hp.Port, Protocol: proto, HostIP: hp.IP})
+	}
+	for _, v := range p.Volumes {
+		pod.Spec.Volumes = append(pod.Spec.Volumes, corev1.Volume{Name: v.Name,
+			VolumeSource: corev1.VolumeSource{PersistentVolumeClaim: &corev1.PersistentVolumeClaimVolumeSource{ClaimName: v.Claim}}})
 	}
 	if len(p.Required) > 0 || len(p.Preferred) > 0 {
 		na := &corev1.NodeAffinity{}
@@ -201,7 +223,28 @@ func (w *World) BuildPod(p Pod, nodeName string, seq int) *corev1.Pod {
 		if pod.Spec.Affinity == nil {
 			pod.Spec.Affinity = &corev1.Affinity{}
 		}
-		term := corev1.PodAffinityTerm{TopologyKey: a.TopologyKey, LabelSelector: &metav1.LabelSelector{MatchLabels: a.MatchLabels}}
+		term := corev1.PodAffinityTerm{TopologyKey: a.TopologyKey, LabelSelector: &metav1.LabelSelector{MatchLabels: a.MatchLabels, MatchExpressions: toLSR(a.MatchExprs)},
+			Namespaces: append([]string(nil), a.Namespaces...), MatchLabelKeys: append([]string(nil), a.MatchLabelKeys...)}
+		if a.NamespaceSelector != nil {
+			term.NamespaceSelector = &metav1.LabelSelector{MatchLabels: a.NamespaceSelector.MatchLabels, MatchExpressions: toLSR(a.NamespaceSelector.MatchExprs)}
+		}
+		// what the API server does when the pod is created (pod strategy, matchLabelKeys of affinity terms): merge
+		// "key In [the pod's value]" into the term's selector unless it is there already
+		for _, k := range a.MatchLabelKeys {
+			v, ok := p.Labels[k]
+			if !ok {
+				continue
+			}
+			merged := false
+			for _, e := range term.LabelSelector.MatchExpressions {
+				if e.Key == k && e.Operator == metav1.LabelSelectorOpIn && len(e.Values) == 1 && e.Values[0] == v {
+					merged = true
+				}
+			}
+			if !merged {
+				term.LabelSelector.MatchExpressions = append(term.LabelSelector.MatchExpressions, metav1.LabelSelectorRequirement{Key: k, Operator: metav1.LabelSelectorOpIn, Values: []string{v}})
+			}
+		}
 		if a.Anti {
 			if pod.Spec.Affinity.PodAntiAffinity == nil {
 				pod.Spec.Affinity.PodAntiAffinity = &corev1.PodAntiAffinity{}
@@ -224,7 +267,8 @@ func (w *World) BuildPod(p Pod, nodeName string, seq int) *corev1.Pod {
 	}
 	for _, s := range p.Spreads {
 		c := corev1.TopologySpreadConstraint{TopologyKey: s.TopologyKey, MaxSkew: s.MaxSkew, MinDomains: s.MinDomains,
-			LabelSelector: &metav1.LabelSelector{MatchLabels: s.MatchLabels}, WhenUnsatisfiable: corev1.ScheduleAnyway}
+			LabelSelector: &metav1.LabelSelector{MatchLabels: s.MatchLabels, MatchExpressions: toLSR(s.MatchExprs)}, WhenUnsatisfiable: corev1.ScheduleAnyway,
+			MatchLabelKeys: append([]string(nil), s.MatchLabelKeys...)}
 		if s.DoNotSchedule {
 			c.WhenUnsatisfiable = corev1.DoNotSchedule
 		}
@@ -324,6 +368,9 @@ func Build(s *Scenario) (*World, error) {
 	w.Cluster = state.NewCluster(w.Clock, w.Client, w.CP)
 	w.Prov = provisioning.NewProvisioner(w.Client, test.NewEventRecorder(), w.CP, w.Cluster, w.Clock, nil, virtualpods.NewVirtualPodCache(w.Client))
 
+	if err := w.addNamespacesAndStorage(); err != nil {
+		return nil, err
+	}
 	for _, np := range s.Pools {
 		if err := w.Client.Create(w.Ctx, BuildNodePool(np)); err != nil {
 			return nil, err
@@ -365,6 +412,149 @@ func Build(s *Scenario) (*World, error) {
 		}
 	}
 	return w, nil
+}
+
+// AllNamespaces lists every namespace of the scenario: the declared ones (with their labels) and those that pods or claims
+// use without declaring them ("default" always exists).  Each carries kubernetes.io/metadata.name, as the API server sets it.
+func (s *Scenario) AllNamespaces() []Namespace {
+	var out []Namespace
+	seen := map[string]bool{}
+	add := func(n Namespace) {
+		if seen[n.Name] {
+			return
+		}
+		seen[n.Name] = true
+		l := map[string]string{}
+		for k, v := range n.Labels {
+			l[k] = v
+		}
+		l[corev1.LabelMetadataName] = n.Name
+		out = append(out, Namespace{Name: n.Name, Labels: l})
+	}
+	for _, n := range s.Namespaces {
+		add(n)
+	}
+	add(Namespace{Name: "default"})
+	for i := range s.Pods {
+		add(Namespace{Name: s.Pods[i].NS()})
+	}
+	for _, n := range s.Nodes {
+		for i := range n.Pods {
+			add(Namespace{Name: n.Pods[i].NS()})
+		}
+	}
+	for i := range s.PVCs {
+		add(Namespace{Name: s.PVCs[i].NS()})
+	}
+	return out
+}
+
+func (s *Scenario) usesNamespaces() bool {
+	if len(s.Namespaces) > 0 {
+		return true
+	}
+	uses := func(p *Pod) bool {
+		if p.Namespace != "" {
+			return true
+		}
+		for _, a := range p.Affinity {
+			if a.NamespaceSelector != nil || len(a.Namespaces) > 0 {
+				return true
+			}
+		}
+		return false
+	}
+	for i := range s.Pods {
+		if uses(&s.Pods[i]) {
+			return true
+		}
+	}
+	for _, n := range s.Nodes {
+		for i := range n.Pods {
+			if uses(&n.Pods[i]) {
+				return true
+			}
+		}
+	}
+	return false
+}
+
+func toNodeSelectorTerms(terms [][]KExpr) []corev1.NodeSelectorTerm {
+	var out []corev1.NodeSelectorTerm
+	for _, t := range terms {
+		out = append(out, corev1.NodeSelectorTerm{MatchExpressions: toNSR(t)})
+	}
+	return out
+}
+
+// addNamespacesAndStorage creates the Namespace, StorageClass, PersistentVolume and PersistentVolumeClaim objects.
+func (w *World) addNamespacesAndStorage() error {
+	s := w.Scn
+	// only scenarios that use the namespace vocabulary get Namespace objects (nothing lists them otherwise)
+	if s.usesNamespaces() {
+		for i, n := range s.AllNamespaces() {
+			ns := &corev1.Namespace{ObjectMeta: metav1.ObjectMeta{Name: n.Name, Labels: n.Labels, UID: w.nextUID("ns"),
+				CreationTimestamp: metav1.NewTime(T0.Add(-48 * time.Hour).Add(time.Duration(i) * time.Second))}}
+			if err := w.Client.Create(w.Ctx, ns); err != nil {
+				return err
+			}
+		}
+	}
+	for i, sc := range s.StorageClasses {
+		mode := storagev1.VolumeBindingWaitForFirstConsumer
+		if sc.Immediate {
+			mode = storagev1.VolumeBindingImmediate
+		}
+		o := &storagev1.StorageClass{ObjectMeta: metav1.ObjectMeta{Name: sc.Name, UID: w.nextUID("sc"), CreationTimestamp: metav1.NewTime(T0.Add(-47 * time.Hour).Add(time.Duration(i) * time.Second))},
+			Provisioner: "verif.csi.example.com", VolumeBindingMode: &mode}
+		for _, t := range sc.Topologies {
+			var term corev1.TopologySelectorTerm
+			for _, e := range t {
+				term.MatchLabelExpressions = append(term.MatchLabelExpressions, corev1.TopologySelectorLabelRequirement{Key: e.Key, Values: append([]string(nil), e.Values...)})
+			}
+			o.AllowedTopologies = append(o.AllowedTopologies, term)
+		}
+		if err := w.Client.Create(w.Ctx, o); err != nil {
+			return err
+		}
+	}
+	for i, pv := range s.PVs {
+		o := &corev1.PersistentVolume{ObjectMeta: metav1.ObjectMeta{Name: pv.Name, UID: w.nextUID("pv"), CreationTimestamp: metav1.NewTime(T0.Add(-46 * time.Hour).Add(time.Duration(i) * time.Second))},
+			Spec: corev1.PersistentVolumeSpec{
+				PersistentVolumeSource: corev1.PersistentVolumeSource{CSI: &corev1.CSIPersistentVolumeSource{Driver: "verif.csi.example.com", VolumeHandle: pv.Name}},
+				AccessModes:            []corev1.PersistentVolumeAccessMode{corev1.ReadWriteOnce},
+				Capacity:               corev1.ResourceList{corev1.ResourceStorage: resource.MustParse("10Gi")},
+			}}
+		if len(pv.Terms) > 0 {
+			o.Spec.NodeAffinity = &corev1.VolumeNodeAffinity{Required: &corev1.NodeSelector{NodeSelectorTerms: toNodeSelectorTerms(pv.Terms)}}
+		}
+		if err := w.Client.Create(w.Ctx, o); err != nil {
+			return err
+		}
+	}
+	for i, c := range s.PVCs {
+		o := &corev1.PersistentVolumeClaim{ObjectMeta: metav1.ObjectMeta{Name: c.Name, Namespace: c.NS(), UID: w.nextUID("pvc"), CreationTimestamp: metav1.NewTime(T0.Add(-45 * time.Hour).Add(time.Duration(i) * time.Second))},
+			Spec: corev1.PersistentVolumeClaimSpec{
+				VolumeName:  c.VolumeName,
+				AccessModes: []corev1.PersistentVolumeAccessMode{corev1.ReadWriteOnce},
+				Resources:   corev1.VolumeResourceRequirements{Requests: corev1.ResourceList{corev1.ResourceStorage: resource.MustParse("1Gi")}},
+			}}
+		if c.StorageClass != "" {
+			sc := c.StorageClass
+			o.Spec.StorageClassName = &sc
+		}
+		if c.VolumeName != "" {
+			// a bound claim as the PV controller leaves it
+			o.Annotations = map[string]string{"pv.kubernetes.io/bind-completed": "yes"}
+			o.Status.Phase = corev1.ClaimBound
+		} else {
+			o.Status.Phase = corev1.ClaimPending
+		}
+		if err := w.Client.Create(w.Ctx, o); err != nil {
+			return err
+		}
+	}
+	return nil
 }
 
 // NodeLabels returns the labels a node launched as (it, zone, capacityType) in pool carries.
